@@ -19,6 +19,8 @@ OBLIGATIONS = [
     "KafVerif.C36.selectF_err_of_candidate_fault",
     "KafVerif.C36.cached_ok_eq_direct",
     "KafVerif.C36.select_ok_over_listing",
+    "KafVerif.C36.listing_sound_faults",
+    "KafVerif.C36.select_ok_over_faulted_listing",
 ]
 BUILDS = {"h": ("sql", "./cmd/verif_c36", ["C36"])}
 TECHNIQUE = ("Lean 4 refinement proof (record loop of handleSelect = direct filtering) + differential correspondence through "
@@ -38,7 +40,9 @@ LEVEL_TEXT = ("proof: select_eq_direct — for every segment list whose present 
               "selectF_clean — faults that hit no candidate segment do not fail the query; selectF_err_of_candidate_fault — an "
               "ORDER BY / TAIL query fails when any candidate segment faults; cached_ok_eq_direct — for every history of queries, "
               "each under its own fault oracle, through the modelled handleSelectWithCache (lookup by text, store only on "
-              "success; any sound starting cache), every answer that completes, computed or cached, equals direct filtering. Tie: generated segment sets x queries through the real handleSelect (DataRow "
+              "success; any sound starting cache), every answer that completes, computed or cached, equals direct filtering; "
+              "listing_sound_faults / select_ok_over_faulted_listing — the same over a listing taken while the .kfst read of "
+              "any subset of the segments fails (enrich leaves those references without footer statistics). Tie: generated segment sets x queries through the real handleSelect (DataRow "
               "messages decoded) and, for S3 object sets, through the real s3Lister.ListCompleted, TimeIndexBuilder.Build and "
               "timeIndexReader over an in-process S3 endpoint; rows and listed statistics are diffed with the model and the "
               "rows are checked against the Lean `direct` specification. Every select runs through the real "
@@ -48,7 +52,8 @@ LEVEL_TEXT = ("proof: select_eq_direct — for every segment list whose present 
               "exactly the direct result`, also for the un-faulted repeats that follow a faulted query. A further stream "
               "faults the S3 endpoint itself (ListObjectsV2, footer-magic probe, .kfst read, manifest read) under the real "
               "discovery.New stack: monitor only.")
-LEVEL_NOTE = ("S3-level faults of the lister stack are checked by the monitor only (not modelled); a failed footer-magic probe makes "
+LEVEL_NOTE = ("S3-level faults of the lister stack other than the .kfst read (ListObjectsV2, footer probe, manifest read; faults "
+              "that come and go between queries) are checked by the monitor only (not modelled); a failed footer-magic probe makes "
               "the unchanged s3Lister drop the segment silently (reported as an observation / proposed finding, see notes). "
               "sort.Slice is unstable: rows with "
               "equal _ts are compared as a multiset (the last tie group of a cut result by size). Aggregates, joins, LAST (wall "
@@ -135,7 +140,16 @@ def gen_world_objects(rng):
                 if flags == "kim":
                     info.append((topic, part, recs))
     # the real lister stack of discovery.New: time index on/off, manifest lister on/off, listing cache TTL (0 = off)
-    lines.append("list %d %d %d" % (1 if rng.chance(1, 2) else 0, 1 if rng.chance(1, 3) else 0, rng.choice([60, 60, 0])))
+    ti, man, ttl = (1 if rng.chance(1, 2) else 0), (1 if rng.chance(1, 3) else 0), rng.choice([60, 60, 0])
+    lst = "list %d %d %d" % (ti, man, ttl)
+    kim = [l.split() for l in lines[1:] if l.split()[4] == "kim"]
+    if ti and not man and ttl and kim and rng.chance(1, 2):
+        # the .kfst read of one or two segments fails while the listing cache is filled: those references stay without
+        # footer statistics for every later query (modelled: listCompletedT)
+        ks = ["t:t%s/%s/segment-%s.kfst" % tuple(rng.choice(kim)[1:4]) for _ in range(rng.range(1, 2))]
+        lines += ["s3fault " + ",".join(sorted(set(ks))), lst, "s3fault -"]
+    else:
+        lines.append(lst)
     return lines, info
 
 
@@ -344,6 +358,11 @@ CORPUS = [
      "select 0 part=- omin=- omax=- tmin=17 tmax=- limit=- tail=- order=- fault=d0",
      "select 0 part=- omin=- omax=- tmin=17 tmax=- limit=- tail=- order=- fault=c1",
      "select 0 part=- omin=- omax=- tmin=17 tmax=- limit=- tail=- order=-"],
+    # the .kfst read of segment 0 fails while the listing cache is filled: no footer statistics for it, nothing lost
+    ["reset", "obj 0 0 0 kim 5 0:10,1:12,2:14,3:15", "obj 0 0 4 kim 7 4:16,5:17,6:18", "s3fault t:t0/0/segment-0.kfst", "list 1 0 60",
+     "s3fault -", "select 0 part=- omin=- omax=- tmin=15 tmax=16 limit=- tail=- order=-",
+     "select 0 part=- omin=- omax=- tmin=16 tmax=- limit=- tail=- order=- fault=d0",
+     "select 0 part=- omin=- omax=- tmin=- tmax=11 limit=- tail=- order=- fault=d1"],
 ]
 
 # S3-level faults under the real discovery.New stack (monitor only); the third element of a world = footer-probe faults
@@ -500,8 +519,13 @@ def judge(ck, lines, impl, model, spec, kind, sound, corr=True):
                              dict(hist, expected=so, actual=io))
                 continue
             if not same_rows(l, ri, rs):
-                earlier = [x for x in lines[:i] if x.startswith("select ") and fault_of(x) and x.split()[:10] == l.split()[:10]]
-                ck.violation("faulted-query-poisons-later-query" if earlier and not fault else "select-differs-from-direct-filtering",
+                # a cacheable query that repeats the wrong rows of an earlier faulted attempt of the same text: the failed
+                # attempt was stored (result cache) instead of being dropped
+                f10 = l.split()[:10]
+                cacheable = "tail=-" in f10 and "tmin=-" not in f10 and "tmax=-" not in f10
+                poisoned = cacheable and not fault and any(
+                    x.split()[:10] == f10 and fault_of(x) and impl[j] == io for j, x in enumerate(lines[:i]) if x.startswith("select "))
+                ck.violation("faulted-query-poisons-later-query" if poisoned else "select-differs-from-direct-filtering",
                              "a completed query's rows differ from filtering the topic's records directly%s: %s" % (
                                  " (fault script %s: the answer must be an error or the full result)" % fault if fault else "", l),
                              dict(hist, expected=so, actual=io))
